@@ -212,6 +212,17 @@ func baseSpecs(r *mon.Run, sigSection []byte) []*rbundle.BSpec {
 			}
 		}
 	}
+	// many exchanges (1-byte-argument heads for the index map / responses array) and a > 64 KiB body (4-byte heads)
+	for _, ver := range []string{"b1", "b2"} {
+		s := &rbundle.BSpec{Version: ver, Primary: "https://example.com/0"}
+		for i := 0; i < 30; i++ {
+			s.Exchanges = append(s.Exchanges, rbundle.BExchange{URL: fmt.Sprintf("https://example.com/%d", i), Status: "200", Headers: hdrs("content-type", "text/plain"), Body: []byte(fmt.Sprintf("b%d", i))})
+		}
+		out = append(out, s)
+		big := &rbundle.BSpec{Version: ver, Primary: "https://example.com/big"}
+		big.Exchanges = append(big.Exchanges, rbundle.BExchange{URL: "https://example.com/big", Status: "200", Headers: hdrs("content-type", "application/octet-stream"), Body: g.Bytes(70000)}, ex("https://example.com/after", 1))
+		out = append(out, big)
+	}
 	// b1 with a variants entry
 	v := &rbundle.BSpec{Version: "b1", Primary: "https://example.com/v"}
 	for i, k := range []string{"en", "fr"} {
@@ -331,6 +342,32 @@ func run(r *mon.Run) {
 				}
 				x, _ := s.Build(map[string]rbundle.Ov{f.Role: {Val: f.True, Info: info}})
 				judge(r, x, "nonshortest-head", fmt.Sprintf("%s/%s/i%d", name, f.Role, info), false, 2003)
+			}
+		}
+		// (1b) thorough: every pair of location fields overridden together
+		if r.Thorough && len(s.Exchanges) <= 3 {
+			var locs []rbundle.Field
+			for _, f := range fields {
+				if strings.HasPrefix(f.Role, "seclen[") || strings.HasPrefix(f.Role, "index-off") || strings.HasPrefix(f.Role, "index-len") || strings.HasPrefix(f.Role, "resp-hdr-bstr") || strings.HasPrefix(f.Role, "resp-body-bstr") || f.Role == "seclens-bstr" || f.Role == "sections-array" || f.Role == "index-map" || f.Role == "responses-array" {
+					locs = append(locs, f)
+				}
+			}
+			vals := func(f rbundle.Field) []uint64 {
+				return []uint64{f.True - 1, f.True + 1, 0, uint64(len(pristine)), uint64(len(pristine) - f.Off), 1 << 63, ^uint64(0), ^uint64(0) - uint64(f.Off) + 1}
+			}
+			for a := 0; a < len(locs); a++ {
+				for b := a + 1; b < len(locs); b++ {
+					for _, va := range vals(locs[a]) {
+						for _, vb := range vals(locs[b]) {
+							caseNo++
+							if !r.Mine(caseNo) {
+								continue
+							}
+							x, _ := s.Build(map[string]rbundle.Ov{locs[a].Role: {Val: va, Info: -1}, locs[b].Role: {Val: vb, Info: -1}})
+							judge(r, x, "field-pair-override", fmt.Sprintf("%s/%s+%s", name, locs[a].Role, locs[b].Role), false, 40009)
+						}
+					}
+				}
 			}
 		}
 		// (2) consistent multi-field overrides pointing past the end of the input
@@ -491,13 +528,16 @@ func run(r *mon.Run) {
 			}
 			// (4) truncation at every offset
 			for cut := 0; cut < len(pristine); cut++ {
+				if len(pristine) > 8000 && cut > 700 && cut < len(pristine)-700 && cut%97 != 0 {
+					continue // large bundles: every offset near both ends, a stride in the middle of the big body
+				}
 				judge(r, pristine[:cut], "truncated", fmt.Sprintf("%s/cut", name), false, 1999)
 			}
 		}
 		// (5) seeded random byte edits
 		nEdits := 300
 		if r.Thorough {
-			nEdits = 12000
+			nEdits = 40000
 		}
 		for k := 0; k < nEdits; k++ {
 			caseNo++
